@@ -1133,11 +1133,17 @@ func (sys *System) ClearLocation(ctx *Context, location string) error {
 	} else {
 		Log(DEBUG, ctx, "System.ClearLocation", "location", location)
 		Metric(ctx, "System.ClearLocation", "location", location)
+		// Clearing removes what the location holds, not the
+		// location: a location that was created stays created.
+		created, _ := locationCreated(ctx, loc)
 		err = loc.Clear(ctx)
 		if err != nil {
 			Log(ERROR, ctx, "System.ClearLocation", "location", location, "error", err, "when", "clear")
 		} else {
 			Log(DEBUG, ctx, "System.ClearLocation", "location", location, "clear", "done")
+			if created {
+				err = markLocationCreated(ctx, loc)
+			}
 		}
 	}
 
